@@ -229,7 +229,7 @@ class Ctx(object):
             cfgp = os.path.join(SPEC, cfg)
         e = dict(os.environ)
         e.update({k: str(v) for k, v in (env or {}).items()})
-        cmd = ['java', '-Xss64m']
+        cmd = ['java', '-Xss64m', '-Djava.io.tmpdir=' + run]      # TLC leaves a tlc-* directory per run there
         cmd += list(java_opts) if java_opts else ['-XX:+UseParallelGC']
         cmd += ['-cp', TLA_JAR + ':' + CM_JAR, 'tlc2.TLC',
                 '-workers', str(workers or 1),
